@@ -5,6 +5,7 @@ import BigDec.Model.ToF64
 import BigDec.Proofs.F64Round
 import BigDec.Proofs.F64Powi
 import BigDec.Proofs.F64Parse
+import BigDec.Proofs.F64Digits
 /-! # C14 — binary floats convert to decimals exactly -/
 namespace BigDec
 open Generated
@@ -219,9 +220,44 @@ theorem C14_toF64_positive_scale_tolerance (dc : Nat → Nat) (neg : Bool) (n : 
   unfold F64.trimKeeps25 at hkeep
   simpa using hkeep
 
-/-- the code's instance: `F64.toF64 = F64.toF64With F64.digitCountF64` by definition -/
+/-- **the code's digit estimate keeps 25 digits**: `floor((bits+1) as f64 * LOG10_2)`, computed through
+    the proved rounding primitive, never exceeds the true digit count by enough to trim below 25
+    digits - for every coefficient below `2^(2^39 - 2)` (about 1.6 * 10^11 decimal digits) -/
+theorem C14_digit_estimate_keeps25 (n : Nat) (hn : 0 < n) (hsize : n.log2 + 2 ≤ 2 ^ 39) :
+    F64.trimKeeps25 F64.digitCount n = true := F64.digitCount_keeps25 n hn hsize
+
+/-- **`to_f64`, negative scale, unconditional**: the model of the code (its own digit estimate) returns
+    the sign bit plus infinity or a double within `2^-48` of the exact value whenever the exponent
+    left after trimming is at most 308 -/
+theorem C14_toF64_negative_scale (neg : Bool) (n : Nat) (scale : Int) (hn : 0 < n) (hsize : n.log2 + 2 ≤ 2 ^ 39)
+    (hs : scale < 0) (hlo : -(2 ^ 63 : Int) ≤ scale)
+    (hk : 19 * (F64.trimRounds F64.digitCount n : Int) - scale ≤ 308) :
+    ∃ R, F64.toF64 neg n scale = (if neg then 2 ^ 63 else 0) + R ∧
+      (R = F64.inf ∨ |F64.valQ R - (n : ℚ) * (10 : ℚ) ^ (-scale)| ≤ (n : ℚ) * (10 : ℚ) ^ (-scale) * (2 : ℚ) ^ (-48 : Int)) :=
+  C14_toF64_negative_scale_tolerance F64.digitCount neg n scale hn hs hlo hk (F64.digitCount_keeps25 n hn hsize)
+
+/-- **`to_f64`, positive scale, unconditional**: the sign bit plus infinity or a double within `2^-48`
+    (relative) of the exact value at or above `2^-1022`, within one subnormal step `2^-1074` below -/
+theorem C14_toF64_positive_scale (neg : Bool) (n : Nat) (scale : Int) (hn : 0 < n) (hsize : n.log2 + 2 ≤ 2 ^ 39)
+    (hsc : 0 < scale - 19 * (F64.trimRounds F64.digitCount n : Int))
+    (hhi : scale - 19 * (F64.trimRounds F64.digitCount n : Int) ≤ 2 ^ 31) :
+    ∃ R, F64.toF64 neg n scale = (if neg then 2 ^ 63 else 0) + R ∧
+      (R = F64.inf ∨
+        (((2 : ℚ) ^ (-1022 : Int) ≤ (n : ℚ) * (10 : ℚ) ^ (-scale) →
+            |F64.valQ R - (n : ℚ) * (10 : ℚ) ^ (-scale)| ≤ (n : ℚ) * (10 : ℚ) ^ (-scale) * (2 : ℚ) ^ (-48 : Int)) ∧
+         ((n : ℚ) * (10 : ℚ) ^ (-scale) < (2 : ℚ) ^ (-1022 : Int) →
+            |F64.valQ R - (n : ℚ) * (10 : ℚ) ^ (-scale)| ≤ (2 : ℚ) ^ (-1074 : Int)))) :=
+  C14_toF64_positive_scale_tolerance F64.digitCount neg n scale hn hsc hhi (F64.digitCount_keeps25 n hn hsize)
+
+/-- the premises are met by concrete inputs, under the code's own estimate: `12345e3` is untrimmed with
+    exponent 3; a 50-digit coefficient at scale 60 is trimmed once (31 digits kept, exponent 41) -/
+example : F64.trimRounds F64.digitCount 12345 = 0 ∧ F64.trimRounds F64.digitCount (10 ^ 49 + 7) = 1 ∧
+    F64.toF64 false 12345 (-3) = 0x41678BD500000000 := by
+  refine ⟨by decide +kernel, by decide +kernel, by decide +kernel⟩
+
+/-- the code's instance: `F64.toF64 = F64.toF64With F64.digitCount` by definition -/
 theorem C14_toF64_is_instance (neg : Bool) (n : Nat) (scale : Int) :
-    F64.toF64 neg n scale = F64.toF64With F64.digitCountF64 neg n scale := rfl
+    F64.toF64 neg n scale = F64.toF64With F64.digitCount neg n scale := rfl
 
 /-- the premises are satisfiable (with the integer digit estimate, which the kernel can evaluate):
     `12345e3` is untrimmed, and a 50-digit coefficient is trimmed once and keeps 31 digits -/
